@@ -6,7 +6,7 @@ C06 driver.  Case lines (REC as in C05: NAME/TYPE/CLS/TTL/RDATA):
   vk NOW KPROOF KEY SIG NAME TYPE ORC REC*     → `ok P TTL|none` | `err P`    (verify_rrset_with_dnskey)
   begin [ta=ALG:PK,…] [pos=LO:HI] [neg=LO:HI]  → resets the validation cache (ta: trust anchors, harness only)
   h NOW INST CK KEYS SIG NAME TYPE ORCS REC*   → `fresh|cached P ttl… sig P TTL dev=XY` (verify_rrsets via send; X: class outlivesSignature, Y: class sameKeyOtherRdata)
-  hold …same…                                  → the same for the model of the cache before the repair (validate)
+  hold …same…                                  → the same for the pre-repair cache model (validatePreFix; regression only)
   end
 KEY  = OWNER;FLAGS;ALG;PUBKEYHEX        KEYS = KEY;PROOF|KEY;PROOF|…  (`-` = none)
 SIG  = OWNER;CLS;TTL;TC;ALG;LABELS;OTTL;EXP;INC;TAG;SIGNER;SIGHEX
@@ -115,8 +115,8 @@ def step (s : State) (toks : List String) : State × String :=
     | none => (s, "bad-op")
   | ["end"] => ({}, "end")
   | op :: now :: inst :: ck :: keys :: sg :: name :: ty :: orcs :: recs =>
-    -- `h`: the cache as it is after the repair `fix: validation cache must not outlive the signature`;
-    -- `hold`: the model of the cache before the repair (kept for the regression counter-examples)
+    -- `h`: the cache as it is; `hold`: the model of the cache before the repairs 411522f / a831deb
+    -- (regression only)
     if op != "h" && op != "hold" then (s, "bad-op") else
     let r : Option (State × String) := do
       let now ← now.toNat?; let inst ← inst.toNat?; let ck ← parseHex ck
@@ -130,7 +130,7 @@ def step (s : State) (toks : List String) : State × String :=
       let req : Request := { ck, dnskeys := keys, rrsig := sg, keyName := name.toLowercase,
                              keyType := ty, records := recs, now, inst }
       let (c', v, fresh) :=
-        if op == "h" then validateFixed oracle s.cfg s.cache req else validate oracle s.cfg s.cache req
+        if op == "h" then validate oracle s.cfg s.cache req else validatePreFix oracle s.cfg s.cache req
       let ttls := " ".intercalate (recs.map fun r => toString (updatedTtl v r.ttl))
       let sigOut :=
         if v.isOk then s!"{showProof v.proof} {updatedTtl v sg.ttl}" else s!"N {sg.ttl}"
